@@ -17,7 +17,10 @@ RULE = ('exhaustive: all 4096 subsets of the 12 value modifiers x {dtml-var '
         'forms; every special format, every attribute name of str / '
         'TaintedString as method format, %-formats, EPFS C-formats, each '
         'alone and combined with one modifier; size 0..len+2 x etc x '
-        'modifier; null= / missing=.  Non-trivial: the option set contains at '
+        'modifier; null= / missing=; the stage product fmt= (every special '
+        'format, method and %-formats) x C-style format (EPFS s / 40s / .60s '
+        '/ r, or none) x modifier subsets (size <= 3 in quick, all 4096 in '
+        'thorough) x size.  Non-trivial: the option set contains at '
         'least one modifier / format that rewrites the string (anything but '
         'plain insertion).  Cases are distinct by construction.')
 ASSUMPTIONS = [
@@ -38,6 +41,12 @@ SPECIAL_FORMATS = [
     'structured-text', 'sql-quote', 'html-quote', 'url-quote',
     'url-quote-plus', 'url-unquote', 'url-unquote-plus', 'multi-line',
     'comma-numeric', 'dollars-with-commas', 'dollars-and-cents-with-commas']
+
+# fmt= stage of the pipeline product (None = no fmt attribute)
+PIPE_FMTS = [None] + SPECIAL_FORMATS + ['upper', 'strip', 'rsplit',
+                                       'casefold', 'title', '"%s"',
+                                       '"%10s|"', '"[%r]"']
+PIPE_CFORMATS = ['s', '40s', '.60s', 'r']
 
 _T = {}
 
@@ -192,6 +201,9 @@ def plan(tier, seed):
     shards.append(dict(kind='formats', part=1))
     shards.append(dict(kind='size'))
     shards.append(dict(kind='once'))
+    for f in PIPE_FMTS:
+        shards.append(dict(kind='pipeline', fmt=f,
+                           rmax=3 if tier == 'quick' else 12))
     return shards
 
 
@@ -239,6 +251,18 @@ def run_shard(shard):
                     check(acc, 'epfs:' + cf, ['size=7'], v)
                     check(acc, 'epfs:' + cf, ['fmt=upper'], v)
                     check(acc, 'epfs:' + cf, ['fmt=url-unquote'], v)
+    elif kind == 'pipeline':
+        f = shard['fmt']
+        base = ['fmt=%s' % f] if f else []
+        forms = ['name'] + ['epfs:' + c for c in PIPE_CFORMATS]
+        for r in range(0, shard['rmax'] + 1):
+            for mods in itertools.combinations(MODS, r):
+                for form in forms:
+                    for v in three:
+                        check(acc, form, base + list(mods), v)
+                    if r <= 1:
+                        check(acc, form, base + list(mods) + ['size=30'],
+                              three[1])
     elif kind == 'size':
         vs = [MARK + ' ab c', 'a ' + MARK + ' b', 'ab c' + MARK, 'a\n' + MARK,
               'x\n\ny ' + MARK + ' z', '%3C ' + MARK]
